@@ -525,11 +525,13 @@ static void c20_other(Buf *b) {            /* an unrelated ordinal between SHA-1
     Rsp r = c20_run(b, "other"); if (r.rc == 0xFFFFFFFF && !r.len) return;
     tr("op name=other loc=%d ret=%u rc=%u", g_locality, r.ret, r.rc);
 }
-static void c20_startup(Buf *b) {
-    t12_begin(b, T12_TAG0, T12_ORD_Startup); b_u16(b, 1);
-    Rsp r = c20_run(b, "startup"); if (r.rc == 0xFFFFFFFF && !r.len) return;
-    c20_obs("startup", &r, NULL); tr_end();
+static uint32_t c20_startup_st(Buf *b, uint16_t st) {
+    t12_begin(b, T12_TAG0, T12_ORD_Startup); b_u16(b, st);
+    Rsp r = c20_run(b, "startup"); if (r.rc == 0xFFFFFFFF && !r.len) return r.rc;
+    c20_obs("startup", &r, "st=%u", st); tr_end();
+    return r.rc;
 }
+static void c20_startup(Buf *b) { c20_startup_st(b, 1); }
 static void c20_estget(void) {
     TPM_BOOL e = 0; TPM_RESULT ret = TPM_IO_TpmEstablished_Get(&e);
     tr("op name=estget loc=%d ret=0 rc=%u out=%02x", g_locality, ret, e ? 1 : 0);
@@ -538,6 +540,7 @@ static void c20_rand_bytes(uint8_t *d, uint32_t n) {
     int mode = rnd(8);
     for (uint32_t i = 0; i < n; i++) d[i] = mode == 0 ? 0 : mode == 1 ? 0xff : (uint8_t)rnd64();
 }
+#include "scen_tpm12_nv.h"
 static void c20_sha_thread(Buf *b) {
     static uint8_t d[8192];
     c20_sha(b, "sha1start", T12_ORD_SHA1Start, 0, 0, NULL, 0);
@@ -580,13 +583,62 @@ static void c20_history(int h, void *arg) {
     Buf b = {0};
     uint8_t d[20] = {0};
     tpm12_fresh();
+    c20nv_reset_notes();
     if (h % 3 == 2) TPMLIB_SetBufferSize(3072 + 64 * rnd(17), NULL, NULL); else TPMLIB_SetBufferSize(4096, NULL, NULL);
     tr("power maxbuf=%u", tpm12_maxbuf());
-    if (h % 7 == 6) { c20_pcrread(&b, 0); c20_extend(&b, 0, d); if (chance(50)) c20_tis_hash(1); }   /* before Startup */
+    if (h % 7 == 6) { c20_pcrread(&b, 0); c20_extend(&b, 0, d); if (chance(50)) c20_tis_hash(1); c20nv_read(&b, 0x00011200u, 0, 4); c20nv_tscpp(&b, 0x20); }   /* before Startup */
     c20_startup(&b);
+    /* NV storage: two histories out of three mix NV commands into the PCR/SHA-1 stream; the usual preparation
+       (command presence enabled and asserted, a first area) comes first in most of them */
+    int nvpct = (h % 3 == 0) ? 0 : (h % 3 == 1) ? 45 : 75;
+    if (nvpct && chance(80)) { c20nv_tscpp(&b, 0x20); c20nv_tscpp(&b, 0x08); c20nv_define(&b, 0x00011200u, NVP_PPWRITE | NVP_WRITEDEFINE, 16, 0x1f, 0x1f); }
+    if (nvpct && chance(35)) c20nv_define(&b, T12_NV_INDEX_LOCK, 0, 0, 0x1f, 0x1f);
     int n = 10 + rnd(maxops), tis_open = 0;
     for (int i = 0; i < n; i++) {
         if (chance(20)) g_locality = rnd(5);
+        if (nvpct && chance((uint32_t)nvpct)) {
+            long before = g_store_calls;
+            c20nv_random(&b);
+            /* a power cycle / suspend-resume placed immediately after the command, mostly when it wrote storage or set a
+               lock (so that no later command re-writes the permanent state first) */
+            if (chance(g_store_calls != before ? 12 : 3)) {
+                if (tis_open) continue;
+                int kind = rnd(10);
+                if (kind < 5) {                                                     /* power cycle, Startup(ST_CLEAR) */
+                    TPMLIB_Terminate(); TPM_RESULT ret = TPMLIB_MainInit();
+                    tr("restart ret=%u maxbuf=%u", ret, tpm12_maxbuf());
+                    if (ret != TPM_SUCCESS) { b_free(&b); return; }
+                    if (chance(20)) { c20nv_read(&b, c20nv_pool_index(rnd(C20NV_POOL)), 0, 1); c20nv_tscpp(&b, 0x08); }   /* before Startup */
+                    c20_startup(&b);
+                    if (chance(10)) c20_startup_st(&b, 1 + rnd(2));                 /* a second Startup is refused */
+                } else if (kind < 8) {                                              /* TPM_SaveState, power cycle, Startup(ST_STATE) */
+                    c20nv_savestate(&b);
+                    if (chance(15)) c20nv_getpub(&b, 0x00011200u);                  /* any command invalidates the saved state */
+                    TPMLIB_Terminate(); TPM_RESULT ret = TPMLIB_MainInit();
+                    tr("restart ret=%u maxbuf=%u", ret, tpm12_maxbuf());
+                    if (ret != TPM_SUCCESS) { b_free(&b); return; }
+                    if (c20_startup_st(&b, 2) != 0) {                               /* no saved state: failed state until the next power cycle */
+                        c20nv_read(&b, 0x00011200u, 0, 1); c20_pcrread(&b, 0);
+                        TPMLIB_Terminate(); ret = TPMLIB_MainInit();
+                        tr("restart ret=%u maxbuf=%u", ret, tpm12_maxbuf());
+                        if (ret != TPM_SUCCESS) { b_free(&b); return; }
+                        c20_startup(&b);
+                    }
+                } else {                                                            /* suspend / resume through the state blobs */
+                    unsigned char *blob[2] = {0}; uint32_t len[2] = {0}; TPM_RESULT ret = 0;
+                    enum TPMLIB_StateType ty[2] = {TPMLIB_STATE_PERMANENT, TPMLIB_STATE_VOLATILE};
+                    for (int k = 0; k < 2; k++) ret |= TPMLIB_GetState(ty[k], &blob[k], &len[k]);
+                    TPMLIB_Terminate();
+                    for (int k = 0; k < 2; k++) ret |= TPMLIB_SetState(ty[k], blob[k], len[k]);
+                    ret |= TPMLIB_MainInit();
+                    for (int k = 0; k < 2; k++) free(blob[k]);
+                    tr("resume ret=%u", ret);
+                    if (ret != TPM_SUCCESS) { b_free(&b); return; }
+                }
+                c20nv_audit(&b);
+            }
+            continue;
+        }
         switch (rnd(20)) {
         case 0: case 1: case 2: case 3: case 4:
             c20_rand_bytes(d, 20); c20_extend(&b, chance(92) ? rnd(24) : (chance(50) ? 24 + rnd(8) : (uint32_t)rnd64()), d); break;
@@ -648,6 +700,7 @@ static void c20_history(int h, void *arg) {
         if (ret == TPM_SUCCESS) { c20_startup(&b); c20_pcrread(&b, 3); c20_pcrread(&b, 17); }
     }
     for (uint32_t i = 0; i < 24; i++) c20_pcrread(&b, i);
+    if (nvpct) c20nv_audit(&b);
     b_free(&b);
 }
 static void scen_c20(int histories, int maxops) {
